@@ -123,11 +123,18 @@ def r2_identity(ctx):
         an = analyse(ctx, cfg, '<regular_expressions::RE as std::cmp::PartialEq>::eq', [])
         check_leaves(ctx, 'C07.R2', 'RE::eq', an, cfg, lambda o: [('equal-iff-same-id', T.mk_iff(o.value, eq(ida, idb)))])
         an = analyse(ctx, cfg, '<regular_expressions::RE as std::cmp::Ord>::cmp', [], uninterpreted=lambda p: True)
+        seen = set()
         for o in an.rets:
             t = an.ip.to_term(o.state, o.value)
-            ok = t[0] == 'call' and 'Ord for usize' in t[1] and t[2] == (ida, idb)
+            # the ordering of two terms is the ordering of their ids, however it is computed
+            want = {'Less': lt(ida, idb), 'Equal': eq(ida, idb), 'Greater': lt(idb, ida)}
+            ok = t[0] == 'mk' and t[1] == 'std::cmp::Ordering' and t[2] in want and an.ip.entails(o.state, want[t[2]])
+            seen.add(t[2] if ok else None)
             ctx.obligation(ok)
             (ctx.ok if ok else ctx.violation)('C07.R2', 'C07.R2/RE::cmp/orders-by-id', an.fn.path, an.fn.site(), {'returned': T.show(t)[:200]}, cfg)
+        ok = seen == {'Less', 'Equal', 'Greater'}
+        ctx.obligation(ok)
+        (ctx.ok if ok else ctx.violation)('C07.R2', 'C07.R2/RE::cmp/three-outcomes-present', an.fn.path, an.fn.site(), {'seen': sorted(str(x) for x in seen)}, cfg)
         an = analyse(ctx, cfg, '<regular_expressions::RE as std::cmp::PartialOrd>::partial_cmp', [], uninterpreted=lambda p: True)
         for o in an.rets:
             v = variant_of(an.ip, o.state, o.value)
